@@ -175,6 +175,15 @@ def oracle (rest : List String) : String :=
       let want := before ++ (ts.filter (·.1 == q)).map (fun x => some x.2)
       if after == want then "true" else s!"false want={showItems want}"
     | _, _, _, _ => "bad-op"
+  | "queueset" :: args =>
+    -- the operator created exactly the queues its hooks' configurations name, and main
+    match kv? "want" args, kv? "got" args with
+    | some w, some g => if w == g then "true" else s!"false queues-created={g}-queues-named-by-the-hooks={w}"
+    | _, _ => "bad-op"
+  | "opflag" :: args =>
+    match kv? "what" args, kv? "ok" args with
+    | some w, some o => if o == "true" then "true" else s!"false {w}"
+    | _, _ => "bad-op"
   | "queuenames" :: args =>
     -- the loader gives a binding the queue it names, `main` when it names none
     match kv? "cfg" args, kv? "got" args with
